@@ -68,3 +68,587 @@ Proof.
       rewrite Ha. apply IH.
     + apply scan_accessible in E. rewrite E. rewrite IH. cbn [length]. lia.
 Qed.
+
+(* ------------------------------------------------------------------ the sum-of-radii prefilter loses nothing *)
+Lemma tri_scalar : forall A B P al be, 0 <= al -> 0 <= be -> 0 <= B -> P * P <= A * B ->
+  (al + be) * (al + be) <= A -> B <= al * al -> be * be <= A + 2 * P + B.
+Proof.
+  intros A B P al be Hal Hbe HB HCS HA HBa.
+  destruct (Z_le_gt_dec (be * be) (A + 2 * P + B)) as [H|H]; [exact H|exfalso].
+  set (A0 := (al + be) * (al + be)) in *.
+  set (D := A + B - be * be).
+  assert (HD : 0 <= D) by (unfold D, A0 in *; nia).
+  assert (HP : 2 * P < - D) by (unfold D; lia).
+  assert (H4 : D * D < 4 * (P * P)) by nia.
+  assert (Hf : 0 <= D * D - 4 * (A * B)).
+  { assert (E1 : D * D - 4 * (A * B) =
+                 (A - A0) * (A + A0 - 2 * (B + be * be)) + ((A0 + B - be * be) * (A0 + B - be * be) - 4 * (A0 * B)))
+      by (unfold D; ring).
+    assert (E2 : (A0 + B - be * be) * (A0 + B - be * be) - 4 * (A0 * B) =
+                 (B - al * al) * (B - al * al - 4 * (al * be) - 4 * (be * be))) by (unfold A0; ring).
+    assert (S1 : 0 <= (A - A0) * (A + A0 - 2 * (B + be * be))).
+    { apply Z.mul_nonneg_nonneg; [lia|]. unfold A0 in *. nia. }
+    assert (S2 : 0 <= (B - al * al) * (B - al * al - 4 * (al * be) - 4 * (be * be))).
+    { apply Z.mul_nonpos_nonpos; [lia|]. nia. }
+    lia. }
+  lia.
+Qed.
+
+Lemma cauchy_schwarz3 : forall x1 x2 x3 w1 w2 w3,
+  (x1 * w1 + x2 * w2 + x3 * w3) * (x1 * w1 + x2 * w2 + x3 * w3) <=
+  (x1 * x1 + x2 * x2 + x3 * x3) * (w1 * w1 + w2 * w2 + w3 * w3).
+Proof.
+  intros.
+  assert (E : (x1 * x1 + x2 * x2 + x3 * x3) * (w1 * w1 + w2 * w2 + w3 * w3) -
+              (x1 * w1 + x2 * w2 + x3 * w3) * (x1 * w1 + x2 * w2 + x3 * w3) =
+              (x1 * w2 - x2 * w1) * (x1 * w2 - x2 * w1) + (x2 * w3 - x3 * w2) * (x2 * w3 - x3 * w2) +
+              (x3 * w1 - x1 * w3) * (x3 * w1 - x1 * w3)) by ring.
+  pose proof (Z.square_nonneg (x1 * w2 - x2 * w1)). pose proof (Z.square_nonneg (x2 * w3 - x3 * w2)).
+  pose proof (Z.square_nonneg (x3 * w1 - x1 * w3)). lia.
+Qed.
+
+(* a point of atom a's sphere (|s| <= M, i.e. on or inside the unit sphere) is never strictly inside the sphere of an
+   atom that fails the prefilter *)
+Lemma non_neighbour_never_blocks : forall M (a b : atom) (s : vec),
+  0 <= M -> 0 <= snd a -> 0 <= snd b -> norm2 s <= M * M ->
+  is_nbr a b = false -> inside M (centred M a s) b = false.
+Proof.
+  intros M [[[px py] pz] ra] [[[qx qy] qz] rb] [[sx sy] sz] HM Hra Hrb Hs Hn.
+  unfold is_nbr, inside, centred, d2, norm2, vsub, vscale, sq in *. cbn [fst snd] in *.
+  apply Z.ltb_ge in Hn. apply Z.ltb_ge.
+  set (x1 := M * (px - qx)). set (x2 := M * (py - qy)). set (x3 := M * (pz - qz)).
+  set (w1 := ra * sx). set (w2 := ra * sy). set (w3 := ra * sz).
+  pose proof (cauchy_schwarz3 x1 x2 x3 w1 w2 w3) as CS.
+  assert (HA : (M * ra + M * rb) * (M * ra + M * rb) <= x1 * x1 + x2 * x2 + x3 * x3).
+  { unfold x1, x2, x3.
+    replace (M * (px - qx) * (M * (px - qx)) + M * (py - qy) * (M * (py - qy)) + M * (pz - qz) * (M * (pz - qz)))
+      with ((M * M) * ((px - qx) * (px - qx) + (py - qy) * (py - qy) + (pz - qz) * (pz - qz))) by ring.
+    replace ((M * ra + M * rb) * (M * ra + M * rb)) with ((M * M) * ((ra + rb) * (ra + rb))) by ring.
+    apply Z.mul_le_mono_nonneg_l; [nia|lia]. }
+  assert (HB : w1 * w1 + w2 * w2 + w3 * w3 <= (M * ra) * (M * ra)).
+  { unfold w1, w2, w3.
+    replace (ra * sx * (ra * sx) + ra * sy * (ra * sy) + ra * sz * (ra * sz))
+      with ((ra * ra) * (sx * sx + sy * sy + sz * sz)) by ring.
+    replace (M * ra * (M * ra)) with ((ra * ra) * (M * M)) by ring.
+    apply Z.mul_le_mono_nonneg_l; [nia|lia]. }
+  assert (HB0 : 0 <= w1 * w1 + w2 * w2 + w3 * w3) by nia.
+  pose proof (tri_scalar _ _ _ (M * ra) (M * rb) ltac:(nia) ltac:(nia) HB0 CS HA HB) as T.
+  replace (px * M + ra * sx - qx * M) with (x1 + w1) by (unfold x1, w1; ring).
+  replace (py * M + ra * sy - qy * M) with (x2 + w2) by (unfold x2, w2; ring).
+  replace (pz * M + ra * sz - qz * M) with (x3 + w3) by (unfold x3, w3; ring).
+  replace ((x1 + w1) * (x1 + w1) + (x2 + w2) * (x2 + w2) + (x3 + w3) * (x3 + w3))
+    with ((x1 * x1 + x2 * x2 + x3 * x3) + 2 * (x1 * w1 + x2 * w2 + x3 * w3) + (w1 * w1 + w2 * w2 + w3 * w3)) by ring.
+  lia.
+Qed.
+
+Lemma nbrs_filter_others : forall a i l j,
+  nbrs_from a i j l = filter (is_nbr a) (others_from i j l).
+Proof.
+  intros a i l. induction l as [|b t IH]; intros j; cbn [nbrs_from others_from filter]; [reflexivity|].
+  destruct (Nat.eqb i j); cbn [negb andb].
+  - apply IH.
+  - cbn [filter]. destruct (is_nbr a b); now rewrite IH.
+Qed.
+
+Lemma others_incl : forall i l j b, In b (others_from i j l) -> In b l.
+Proof.
+  intros i l. induction l as [|x t IH]; intros j b H; cbn in *; [contradiction|].
+  destruct (Nat.eqb i j); [right; eauto|]. destruct H as [->|H]; [now left|right; eauto].
+Qed.
+
+Lemma accessible_prefilter : forall M a ats i s,
+  0 <= M -> 0 <= snd a -> Forall (fun b => 0 <= snd b) ats -> norm2 s <= M * M ->
+  accessible M a (neighbors ats i a) s = accessible M a (others ats i) s.
+Proof.
+  intros M a ats i s HM Ha Hr Hs. unfold neighbors, others. rewrite nbrs_filter_others.
+  unfold accessible. set (l := others_from i 0%nat ats).
+  assert (Hl : forall b, In b l -> 0 <= snd b).
+  { intros b Hb. apply others_incl in Hb. rewrite Forall_forall in Hr. auto. }
+  clearbody l. induction l as [|b t IH]; [reflexivity|].
+  cbn [filter forallb]. destruct (is_nbr a b) eqn:E.
+  - cbn [forallb]. rewrite IH; [reflexivity|]. intros; apply Hl; now right.
+  - rewrite (non_neighbour_never_blocks M a b s HM Ha (Hl b (or_introl eq_refl)) Hs E). cbn.
+    apply IH. intros; apply Hl; now right.
+Qed.
+
+(* the count of the C code = number of points not strictly inside ANY other atom's expanded sphere *)
+Lemma atom_count_spec : forall M pts ats i a,
+  0 <= M -> 0 <= snd a -> Forall (fun b => 0 <= snd b) ats -> Forall (fun s => norm2 s <= M * M) pts ->
+  atom_count M pts ats i a = count_naive M a (others ats i) pts.
+Proof.
+  intros M pts ats i a HM Ha Hr Hp. unfold atom_count. rewrite count_cached_naive. cbn.
+  unfold count_naive. f_equal. f_equal.
+  induction pts as [|s r IH]; [reflexivity|]. inversion Hp; subst. cbn [filter].
+  rewrite accessible_prefilter by assumption. destruct (accessible M a (others ats i) s); rewrite IH; auto.
+Qed.
+
+(* ------------------------------------------------------------------ isolated atom *)
+Lemma neighbors_none : forall a i ats,
+  (forall j b, nth_error ats j = Some b -> j <> i -> is_nbr a b = false) -> neighbors ats i a = [].
+Proof.
+  intros a i ats H. unfold neighbors.
+  assert (G : forall l j0, (forall j b, nth_error l j = Some b -> (j0 + j)%nat <> i -> is_nbr a b = false) ->
+                           nbrs_from a i j0 l = []).
+  { induction l as [|b t IH]; intros j0 Hl; cbn [nbrs_from]; [reflexivity|].
+    destruct (Nat.eqb_spec i j0) as [->|Hne]; cbn [negb andb].
+    - apply IH. intros j b' Hj Hn. apply (Hl (S j) b'); [exact Hj|lia].
+    - rewrite (Hl 0%nat b eq_refl) by lia. apply IH. intros j b' Hj Hn. apply (Hl (S j) b'); [exact Hj|lia]. }
+  apply G. intros j b Hj Hn. eapply H; eauto.
+Qed.
+
+Lemma count_no_neighbors : forall M a pts kc acc, count_cached M a [] pts kc acc = acc + Z.of_nat (length pts).
+Proof.
+  intros M a pts. induction pts as [|s r IH]; intros kc acc; cbn [count_cached length scan]; [lia|].
+  rewrite IH. lia.
+Qed.
+
+Lemma isolated_area : forall K M pts ats i a prev,
+  (forall j b, nth_error ats j = Some b -> j <> i -> is_nbr a b = false) ->
+  atom_area K M pts ats i a prev = (prev + Z.of_nat (length pts)) * (K * snd a * snd a).
+Proof.
+  intros. unfold atom_area, atom_count. rewrite neighbors_none by assumption.
+  now rewrite count_no_neighbors.
+Qed.
+
+(* ------------------------------------------------------------------ asa_frame and the accumulation into groups *)
+Lemma asa_go_length : forall K M pts ats l i mask buf,
+  length mask = length l -> length buf = length l -> length (asa_go K M pts ats i l mask buf) = length l.
+Proof.
+  intros K M pts ats l. induction l as [|a t IH]; intros i mask buf Hm Hb; destruct mask, buf; cbn in *; try lia.
+  rewrite IH; lia.
+Qed.
+
+Lemma asa_go_nth : forall K M pts ats l i mask buf j,
+  length mask = length l -> length buf = length l -> (j < length l)%nat ->
+  nth j (asa_go K M pts ats i l mask buf) 0 =
+  if nth j mask false then atom_area K M pts ats (i + j) (nth j l dflt_atom) (nth j buf 0) else nth j buf 0.
+Proof.
+  intros K M pts ats l. induction l as [|a t IH]; intros i mask buf j Hm Hb Hj; [cbn in Hj; lia|].
+  destruct mask as [|m mask]; [cbn in Hm; lia|]. destruct buf as [|b buf]; [cbn in Hb; lia|].
+  cbn [asa_go]. destruct j as [|j]; cbn [nth].
+  - now rewrite Nat.add_0_r.
+  - rewrite IH by (cbn in *; lia). now rewrite Nat.add_succ_r.
+Qed.
+
+Lemma asa_frame_length : forall K M pts ats mask buf,
+  length mask = length ats -> length buf = length ats -> length (asa_frame K M pts ats mask buf) = length ats.
+Proof. intros. unfold asa_frame. now apply asa_go_length. Qed.
+
+Lemma asa_frame_nth : forall K M pts ats mask buf j,
+  length mask = length ats -> length buf = length ats -> (j < length ats)%nat ->
+  nth j (asa_frame K M pts ats mask buf) 0 =
+  if nth j mask false then atom_area K M pts ats j (nth j ats dflt_atom) (nth j buf 0) else nth j buf 0.
+Proof. intros. unfold asa_frame. now rewrite asa_go_nth. Qed.
+
+(* sum of the buffer entries whose atom maps to group g *)
+Fixpoint gsum (g : nat) (mapping : list nat) (buf : list Z) : Z :=
+  match mapping, buf with
+  | m :: ms, b :: bs => (if Nat.eqb m g then b else 0) + gsum g ms bs
+  | _, _ => 0
+  end.
+
+Lemma upd_add_length : forall row g v, length (upd_add g v row) = length row.
+Proof. induction row as [|x r IH]; intros [|g] v; cbn; auto. Qed.
+
+Lemma upd_add_nth : forall row m v g, (g < length row)%nat ->
+  nth g (upd_add m v row) 0 = nth g row 0 + (if Nat.eqb m g then v else 0).
+Proof.
+  induction row as [|x r IH]; intros m v g Hg; [cbn in Hg; lia|].
+  destruct m as [|m], g as [|g]; cbn [upd_add nth Nat.eqb]; try lia.
+  apply IH. cbn in Hg. lia.
+Qed.
+
+Lemma accumulate_length : forall mapping buf row, length (accumulate mapping buf row) = length row.
+Proof.
+  induction mapping as [|m ms IH]; intros [|b bs] row; cbn; auto. now rewrite IH, upd_add_length.
+Qed.
+
+Lemma accumulate_nth : forall mapping buf row g, (g < length row)%nat ->
+  nth g (accumulate mapping buf row) 0 = nth g row 0 + gsum g mapping buf.
+Proof.
+  induction mapping as [|m ms IH]; intros [|b bs] row g Hg; cbn [accumulate gsum]; try lia.
+  rewrite IH by now rewrite upd_add_length. rewrite upd_add_nth by assumption. lia.
+Qed.
+
+(* atom mode: the mapping is the identity, so column j receives exactly buffer entry j *)
+Lemma gsum_seq : forall buf g s, (s <= g)%nat ->
+  gsum g (seq s (length buf)) buf = nth (g - s) buf 0.
+Proof.
+  induction buf as [|b bs IH]; intros g s Hs; cbn [length seq gsum].
+  - now destruct (g - s)%nat.
+  - destruct (Nat.eqb_spec s g) as [->|Hne].
+    + rewrite Nat.sub_diag. cbn [nth].
+      assert (Z0 : forall l t, (g < t)%nat -> gsum g (seq t (length l)) l = 0).
+      { induction l as [|y l IHl]; intros t Ht; cbn [length seq gsum]; [reflexivity|].
+        destruct (Nat.eqb_spec t g); [lia|]. rewrite IHl by lia. lia. }
+      rewrite Z0 by lia. lia.
+    + rewrite IH by lia. replace (g - s)%nat with (S (g - S s)) by lia. cbn [nth]. lia.
+Qed.
+
+(* ------------------------------------------------------------------ selection mask and the -1 overlay *)
+Lemma mask_of_length : forall n sel, length (mask_of n sel) = n.
+Proof. intros n [idx|]; cbn; [now rewrite map_length, seq_length|now rewrite repeat_length]. Qed.
+
+Definition selected (sel : option (list nat)) (j : nat) : bool :=
+  match sel with None => true | Some idx => mem_nat j idx end.
+
+Lemma mask_of_nth : forall n sel j, (j < n)%nat -> nth j (mask_of n sel) false = selected sel j.
+Proof.
+  intros n [idx|] j Hj; cbn.
+  - rewrite (nth_indep _ false (mem_nat 0 idx)) by now rewrite map_length, seq_length.
+    rewrite (map_nth (fun i => mem_nat i idx)), seq_nth by assumption. reflexivity.
+  - revert j Hj. induction n as [|n IH]; intros [|j] Hj; cbn; try lia; auto. apply IH. lia.
+Qed.
+
+Lemma set_nth_length : forall row g v, length (set_nth g v row) = length row.
+Proof. induction row as [|x r IH]; intros [|g] v; cbn; auto. Qed.
+
+Lemma set_nth_nth : forall row m v g, (g < length row)%nat ->
+  nth g (set_nth m v row) 0 = if Nat.eqb m g then v else nth g row 0.
+Proof.
+  induction row as [|x r IH]; intros m v g Hg; [cbn in Hg; lia|].
+  destruct m as [|m], g as [|g]; cbn [set_nth nth Nat.eqb]; try reflexivity.
+  apply IH. cbn in Hg. lia.
+Qed.
+
+(* group g contains a selected atom *)
+Definition group_selected (mapping : list nat) (sel : option (list nat)) (g : nat) : bool :=
+  match sel with None => true | Some idx => existsb (fun i => Nat.eqb (nth i mapping 0%nat) g) idx end.
+
+Lemma init_row_length : forall ng mapping sel, length (init_row ng mapping sel) = ng.
+Proof.
+  intros ng mapping [idx|]; cbn; [|now rewrite repeat_length].
+  assert (G : forall l row, length (fold_left (fun row i => set_nth (nth i mapping 0%nat) 0 row) l row) = length row).
+  { induction l as [|i l IH]; intros row; cbn; [reflexivity|]. now rewrite IH, set_nth_length. }
+  now rewrite G, repeat_length.
+Qed.
+
+Lemma nth_repeat_Z : forall n (v : Z) g, (g < n)%nat -> nth g (repeat v n) 0 = v.
+Proof. induction n; intros v [|g] H; cbn; try lia; auto. apply IHn; lia. Qed.
+
+Lemma init_row_nth : forall ng mapping sel g, (g < ng)%nat ->
+  nth g (init_row ng mapping sel) 0 =
+  match sel with None => 0 | Some _ => if group_selected mapping sel g then 0 else -1 end.
+Proof.
+  intros ng mapping [idx|] g Hg; cbn [init_row group_selected]; [|now apply nth_repeat_Z].
+  assert (G : forall l row, length row = ng ->
+    nth g (fold_left (fun row i => set_nth (nth i mapping 0%nat) 0 row) l row) 0 =
+    if existsb (fun i => Nat.eqb (nth i mapping 0%nat) g) l then 0 else nth g row 0).
+  { induction l as [|i l IH]; intros row Hr; cbn [fold_left existsb]; [reflexivity|].
+    rewrite IH by now rewrite set_nth_length. rewrite set_nth_nth by lia.
+    destruct (existsb _ l); [now rewrite orb_true_r|]. rewrite orb_false_r.
+    now destruct (Nat.eqb (nth i mapping 0%nat) g). }
+  rewrite G by apply repeat_length. rewrite nth_repeat_Z by assumption. reflexivity.
+Qed.
+
+Lemma init_row_nth' : forall ng mapping sel g, (g < ng)%nat ->
+  nth g (init_row ng mapping sel) 0 = if group_selected mapping sel g then 0 else -1.
+Proof. intros ng mapping sel g Hg. rewrite init_row_nth by assumption. now destruct sel. Qed.
+
+Lemma group_unselected_members : forall mapping sel g j,
+  group_selected mapping sel g = false -> nth j mapping 0%nat = g -> selected sel j = false.
+Proof.
+  intros mapping [idx|] g j Hg Hm; cbn in *; [|discriminate].
+  destruct (mem_nat j idx) eqn:Ej; [|reflexivity]. exfalso. unfold mem_nat in Ej.
+  apply existsb_exists in Ej. destruct Ej as [i [Hi Hij]]. apply Nat.eqb_eq in Hij. subst i.
+  assert (T : existsb (fun i => Nat.eqb (nth i mapping 0%nat) g) idx = true).
+  { apply existsb_exists. exists j. split; [assumption|now apply Nat.eqb_eq]. }
+  congruence.
+Qed.
+
+(* ------------------------------------------------------------------ one frame: what every output column holds *)
+Definition zero_unselected (mask : list bool) (row : list Z) : list Z :=
+  map (fun mv : bool * Z => if fst mv then snd mv else 0) (combine mask row).
+
+Lemma zero_unselected_length : forall mask row, length mask = length row ->
+  length (zero_unselected mask row) = length row.
+Proof. intros. unfold zero_unselected. rewrite map_length, combine_length. lia. Qed.
+
+Lemma zero_unselected_nth : forall mask row j, length mask = length row -> (j < length row)%nat ->
+  nth j (zero_unselected mask row) 0 = if nth j mask false then nth j row 0 else 0.
+Proof.
+  unfold zero_unselected. induction mask as [|m mask IH]; intros [|v row] j Hl Hj; cbn in *; try lia.
+  destruct j as [|j]; [reflexivity|]. apply IH; lia.
+Qed.
+
+Section Row.
+  Variables (K M : Z) (pts : list vec) (radii : list Z) (sel : option (list nat)) (fr : frame).
+  Let n := length radii.
+  Hypothesis Hfr : length fr = n.
+  Hypothesis Hsel : match sel with Some idx => forallb (fun i => Nat.ltb i n) idx = true | None => True end.
+  Let ats := combine fr radii.
+  Let mask := mask_of n sel.
+  (* the area of atom j computed from a zeroed buffer, all atoms acting as blockers *)
+  Definition area (j : nat) : Z := atom_area K M pts ats j (nth j ats dflt_atom) 0.
+  Let buf := asa_frame K M pts ats mask (zeros n).
+
+  Lemma ats_length : length ats = n.
+  Proof. unfold ats. rewrite combine_length, Hfr. apply Nat.min_id. Qed.
+
+  Lemma buf_length : length buf = n.
+  Proof.
+    pose proof ats_length as Ha.
+    unfold buf. rewrite asa_frame_length.
+    - exact Ha.
+    - transitivity n; [apply mask_of_length|symmetry; exact Ha].
+    - transitivity n; [apply repeat_length|symmetry; exact Ha].
+  Qed.
+
+  Lemma buf_nth : forall j, (j < n)%nat -> nth j buf 0 = if selected sel j then area j else 0.
+  Proof.
+    intros j Hj. pose proof ats_length as Ha.
+    assert (H1 : length mask = length ats) by (transitivity n; [apply mask_of_length|symmetry; exact Ha]).
+    assert (H2 : length (zeros n) = length ats) by (transitivity n; [apply repeat_length|symmetry; exact Ha]).
+    assert (H3 : (j < length ats)%nat) by (rewrite Ha; exact Hj).
+    unfold buf. rewrite (asa_frame_nth K M pts ats mask (zeros n) j H1 H2 H3).
+    unfold mask. rewrite mask_of_nth by assumption. unfold zeros. rewrite nth_repeat_Z by assumption. reflexivity.
+  Qed.
+
+  Definition atom_row : list Z := frame_row K M pts radii mask (seq 0 n) (init_row n (seq 0 n) sel) fr.
+  Definition group_row (resid : list nat) (nres : nat) : list Z :=
+    frame_row K M pts radii mask resid (init_row nres resid sel) fr.
+
+  Lemma group_selected_atom : forall j, (j < n)%nat -> group_selected (seq 0 n) sel j = selected sel j.
+  Proof.
+    intros j Hj. destruct sel as [idx|]; cbn; [|reflexivity]. cbn in Hsel. unfold mem_nat.
+    induction idx as [|i idx IH]; cbn in *; [reflexivity|].
+    apply andb_prop in Hsel. destruct Hsel as [Hi Hr]. apply Nat.ltb_lt in Hi.
+    rewrite seq_nth by assumption. cbn. rewrite IH by assumption.
+    now rewrite (Nat.eqb_sym i j).
+  Qed.
+
+  (* atom mode: a selected atom gets its area - the same number whatever else is selected -,
+     an unselected atom gets -1 *)
+  Lemma atom_row_nth : forall j, (j < n)%nat ->
+    nth j atom_row 0 = if selected sel j then area j else -1.
+  Proof.
+    intros j Hj. change atom_row with (accumulate (seq 0 n) buf (init_row n (seq 0 n) sel)).
+    rewrite accumulate_nth by now rewrite init_row_length.
+    rewrite init_row_nth' by assumption.
+    pose proof (gsum_seq buf j 0%nat (Nat.le_0_l j)) as Hs. rewrite buf_length in Hs. rewrite Hs.
+    rewrite Nat.sub_0_r, buf_nth by assumption.
+    rewrite (group_selected_atom j Hj). destruct (selected sel j); lia.
+  Qed.
+
+  Lemma atom_row_length : length atom_row = n.
+  Proof. unfold atom_row, frame_row. now rewrite accumulate_length, init_row_length. Qed.
+
+  Lemma gsum_zero : forall g mapping b, length mapping = length b ->
+    (forall j, (j < length b)%nat -> nth j mapping 0%nat = g -> nth j b 0 = 0) -> gsum g mapping b = 0.
+  Proof.
+    intros g mapping. induction mapping as [|m ms IH]; intros [|b bs] Hl H; cbn [gsum]; try reflexivity.
+    rewrite IH.
+    - destruct (Nat.eqb_spec m g) as [E|E]; [|lia]. specialize (H 0%nat). cbn in H. rewrite H; [lia|lia|assumption].
+    - cbn in Hl. lia.
+    - intros j Hj. apply (H (S j)). cbn. lia.
+  Qed.
+
+  Variables (resid : list nat) (nres : nat).
+  Hypothesis Hres : length resid = n.
+
+  (* residue mode: a residue with a selected atom gets the sum of the areas of its selected atoms, any other -1 *)
+  Lemma group_row_nth : forall g, (g < nres)%nat ->
+    nth g (group_row resid nres) 0 = if group_selected resid sel g then gsum g resid buf else -1.
+  Proof.
+    intros g Hg. change (group_row resid nres) with (accumulate resid buf (init_row nres resid sel)).
+    rewrite accumulate_nth by now rewrite init_row_length.
+    rewrite init_row_nth' by assumption.
+    destruct (group_selected resid sel g) eqn:Eg; [lia|].
+    rewrite gsum_zero; [lia|now rewrite buf_length|].
+    intros j Hj Hm. rewrite buf_length in Hj. rewrite buf_nth by assumption.
+    now rewrite (group_unselected_members resid sel g j Eg Hm).
+  Qed.
+
+  Lemma buf_is_masked_atom_row : buf = zero_unselected mask atom_row.
+  Proof.
+    assert (Hm : length mask = length atom_row) by (unfold mask; now rewrite mask_of_length, atom_row_length).
+    apply (nth_ext _ _ 0 0).
+    - rewrite zero_unselected_length by assumption. now rewrite buf_length, atom_row_length.
+    - intros j Hj. rewrite buf_length in Hj. rewrite buf_nth by assumption.
+      rewrite zero_unselected_nth; [|exact Hm|rewrite atom_row_length; exact Hj].
+      unfold mask at 1. rewrite mask_of_nth, atom_row_nth by assumption.
+      destruct (selected sel j); reflexivity.
+  Qed.
+
+  (* residue mode = sum of atom mode over the residue's selected atoms *)
+  Lemma residue_row_is_sum : forall g, (g < nres)%nat -> group_selected resid sel g = true ->
+    nth g (group_row resid nres) 0 = gsum g resid (zero_unselected mask atom_row).
+  Proof. intros g Hg Hs. rewrite group_row_nth by assumption. now rewrite Hs, buf_is_masked_atom_row. Qed.
+End Row.
+
+(* ------------------------------------------------------------------ isolated atom, through the whole frame *)
+Lemma isolated_full_row : forall K M pts radii sel fr j,
+  length fr = length radii ->
+  match sel with Some idx => forallb (fun i => Nat.ltb i (length radii)) idx = true | None => True end ->
+  (j < length radii)%nat -> selected sel j = true ->
+  (forall k b, nth_error (combine fr radii) k = Some b -> k <> j ->
+               is_nbr (nth j (combine fr radii) dflt_atom) b = false) ->
+  nth j (atom_row K M pts radii sel fr) 0 = Z.of_nat (length pts) * (K * nth j radii 0 * nth j radii 0).
+Proof.
+  intros K M pts radii sel fr j Hfr Hsel Hj Hs Hiso.
+  rewrite atom_row_nth by assumption. rewrite Hs. unfold area.
+  rewrite isolated_area by assumption.
+  replace (snd (nth j (combine fr radii) dflt_atom)) with (nth j radii 0); [lia|].
+  unfold dflt_atom. rewrite combine_nth by assumption. reflexivity.
+Qed.
+
+(* ------------------------------------------------------------------ the frame loop *)
+Section Loop.
+  Variables (K M : Z) (pts : list vec) (radii : list Z) (mask : list bool) (mapping : list nat) (row0 : list Z).
+
+  Lemma body_fix_ignores : body_ignores_scratch (body_fix K M pts radii mask mapping row0).
+  Proof. intros s s' x. reflexivity. Qed.
+
+  (* repaired kernel: every admissible schedule gives, for each frame, the frame evaluated on its own *)
+  Lemma sasa_fix_frame_fresh : forall frames sched, covers (length frames) sched ->
+    sasa_kernel K M pts radii mask mapping row0 true frames sched =
+    map (fun fr => Some (frame_row K M pts radii mask mapping row0 fr)) frames.
+  Proof.
+    intros frames sched Hc. unfold sasa_kernel.
+    rewrite (parfor_schedule_free _ _ _ _ _ _ body_fix_ignores) by assumption. reflexivity.
+  Qed.
+
+  (* as-found kernel: correct when every frame has its own thread ... *)
+  Lemma sasa_cur_one_thread_per_frame : forall frames,
+    sasa_kernel K M pts radii mask mapping row0 false frames (sched_one_each (length frames)) =
+    map (fun fr => Some (frame_row K M pts radii mask mapping row0 fr)) frames.
+  Proof. intros frames. unfold sasa_kernel. rewrite parfor_one_each. reflexivity. Qed.
+End Loop.
+
+(* ... and wrong as soon as one thread runs two frames: one isolated atom, one sphere point, two identical frames *)
+Lemma sasa_cur_refuted : exists K M pts radii mask mapping row0 frames sched,
+  covers (length frames) sched /\
+  sasa_kernel K M pts radii mask mapping row0 false frames sched <>
+  map (fun fr => Some (frame_row K M pts radii mask mapping row0 fr)) frames.
+Proof.
+  exists 1, 1, [(1, 0, 0)], [1], [true], [0%nat], [0], [[(0, 0, 0)]; [(0, 0, 0)]], (sched_serial 2).
+  split.
+  - split; cbn; intros i H; [destruct i as [|[|i]]; auto; lia | destruct H as [<-|[<-|[]]]; lia].
+  - vm_compute. discriminate.
+Qed.
+
+(* the carry-over, exactly: under today's kernel an atom's buffer entry after a frame is
+   (what the buffer held + count) * K * r^2 *)
+Lemma cur_carry_formula : forall K M pts ats mask buf j,
+  length mask = length ats -> length buf = length ats -> (j < length ats)%nat -> nth j mask false = true ->
+  nth j (asa_frame K M pts ats mask buf) 0 =
+  (nth j buf 0 + atom_count M pts ats j (nth j ats dflt_atom)) * (K * snd (nth j ats dflt_atom) * snd (nth j ats dflt_atom)).
+Proof. intros. rewrite asa_frame_nth by assumption. now rewrite H2. Qed.
+
+(* ------------------------------------------------------------------ shrake_rupley (sasa.py) *)
+Lemma shrake_rupley_schedule_free : forall c sc1 sc2,
+  covers (length (c_frames c)) sc1 -> covers (length (c_frames c)) sc2 ->
+  shrake_rupley true sc1 c = shrake_rupley true sc2 c.
+Proof.
+  intros c sc1 sc2 H1 H2. unfold shrake_rupley.
+  destruct (match c_mode c with AtomMode => false | ResidueMode => _ end); [reflexivity|].
+  destruct (match c_sel c with Some _ => _ | None => false end); [reflexivity|].
+  destruct (radii_of _ _ _ _); [|reflexivity].
+  destruct (existsb _ _); [reflexivity|].
+  now rewrite !sasa_fix_frame_fresh.
+Qed.
+
+Lemma shrake_rupley_rows : forall c sched rows,
+  covers (length (c_frames c)) sched -> shrake_rupley true sched c = Ok rows ->
+  exists radii, radii_of (c_tbl c) (c_change c) (c_probe c) (c_elems c) = Some radii /\
+    let n := length (c_elems c) in
+    let mapping := mapping_of (c_mode c) n (c_resid c) in
+    let ng := match c_mode c with AtomMode => n | ResidueMode => c_nres c end in
+    rows = map (fun fr => Some (frame_row (c_K c) (c_M c) (c_pts c) radii (mask_of n (c_sel c)) mapping
+                                          (init_row ng mapping (c_sel c)) fr)) (c_frames c).
+Proof.
+  intros c sched rows Hc H. unfold shrake_rupley in H.
+  destruct (match c_mode c with AtomMode => false | ResidueMode => _ end); [discriminate|].
+  destruct (match c_sel c with Some _ => _ | None => false end); [discriminate|].
+  destruct (radii_of _ _ _ _) as [radii|]; [|discriminate].
+  destruct (existsb _ _); [discriminate|].
+  exists radii. split; [reflexivity|]. cbn zeta. inversion H. now rewrite sasa_fix_frame_fresh.
+Qed.
+
+(* ------------------------------------------------------------------ radii: table, change_radii, probe *)
+Lemma lookup_override : forall e change tbl,
+  lookup_radius e (change ++ tbl) =
+  match lookup_radius e change with Some v => Some v | None => lookup_radius e tbl end.
+Proof.
+  intros e change tbl. induction change as [|[k v] r IH]; cbn; [reflexivity|].
+  destruct (String.eqb e k); [reflexivity|exact IH].
+Qed.
+
+Lemma radii_of_spec : forall tbl change probe elems l,
+  radii_of tbl change probe elems = Some l ->
+  length l = length elems /\
+  forall j, (j < length elems)%nat ->
+    exists v, match lookup_radius (nth j elems EmptyString) change with
+              | Some w => w = v
+              | None => lookup_radius (nth j elems EmptyString) tbl = Some v
+              end /\ nth j l 0 = v + probe.
+Proof.
+  intros tbl change probe elems. induction elems as [|e r IH]; intros l H; cbn in H.
+  - inversion H. split; [reflexivity|]. intros j Hj. cbn in Hj. lia.
+  - destruct (lookup_radius e (change ++ tbl)) as [v|] eqn:E; [|discriminate].
+    destruct (radii_of tbl change probe r) as [l'|]; [|discriminate]. inversion H; subst.
+    destruct (IH l' eq_refl) as [Hl Hn]. split; [cbn; now rewrite Hl|].
+    intros [|j] Hj; cbn [nth].
+    + exists v. split; [|reflexivity]. rewrite lookup_override in E.
+      destruct (lookup_radius e change); [now inversion E|exact E].
+    + apply Hn. cbn in Hj. lia.
+Qed.
+
+(* a missing symbol is an error, never a default radius *)
+Lemma radii_of_missing : forall tbl change probe elems e,
+  In e elems -> lookup_radius e (change ++ tbl) = None -> radii_of tbl change probe elems = None.
+Proof.
+  intros tbl change probe elems e. induction elems as [|x r IH]; intros Hin Hl; cbn in *; [contradiction|].
+  destruct Hin as [->|Hin].
+  - now rewrite Hl.
+  - rewrite (IH Hin Hl). now destruct (lookup_radius x (change ++ tbl)).
+Qed.
+
+(* ------------------------------------------------------------------ derived statements of the property *)
+Lemma sel_none_ok : forall n : nat, match @None (list nat) with Some idx => forallb (fun i => Nat.ltb i n) idx = true | None => True end.
+Proof. intros; exact I. Qed.
+
+Lemma subset_independent_atom : forall K M pts radii sel fr j,
+  length fr = length radii ->
+  match sel with Some idx => forallb (fun i => Nat.ltb i (length radii)) idx = true | None => True end ->
+  (j < length radii)%nat -> selected sel j = true ->
+  nth j (atom_row K M pts radii sel fr) 0 = nth j (atom_row K M pts radii None fr) 0.
+Proof.
+  intros K M pts radii sel fr j Hfr Hsel Hj Hs.
+  rewrite atom_row_nth by assumption. rewrite (atom_row_nth K M pts radii None fr Hfr I j Hj).
+  now rewrite Hs.
+Qed.
+
+Lemma unselected_atom_minus1 : forall K M pts radii sel fr j,
+  length fr = length radii ->
+  match sel with Some idx => forallb (fun i => Nat.ltb i (length radii)) idx = true | None => True end ->
+  (j < length radii)%nat -> selected sel j = false ->
+  nth j (atom_row K M pts radii sel fr) 0 = -1.
+Proof. intros K M pts radii sel fr j Hfr Hsel Hj Hs. rewrite atom_row_nth by assumption. now rewrite Hs. Qed.
+
+Lemma unselected_residue_minus1 : forall K M pts radii sel fr resid nres g,
+  length fr = length radii -> length resid = length radii -> (g < nres)%nat -> group_selected resid sel g = false ->
+  nth g (group_row K M pts radii sel fr resid nres) 0 = -1.
+Proof. intros K M pts radii sel fr resid nres g Hfr Hres Hg Hs. rewrite group_row_nth by assumption. now rewrite Hs. Qed.
+
+(* residue mode under a selection, expressed with the all-atoms atom-mode values: the values of the atoms kept do
+   not depend on what else is selected *)
+Lemma residue_subset : forall K M pts radii sel fr resid nres g,
+  length fr = length radii ->
+  match sel with Some idx => forallb (fun i => Nat.ltb i (length radii)) idx = true | None => True end ->
+  length resid = length radii -> (g < nres)%nat -> group_selected resid sel g = true ->
+  nth g (group_row K M pts radii sel fr resid nres) 0 =
+  gsum g resid (zero_unselected (mask_of (length radii) sel) (atom_row K M pts radii None fr)).
+Proof.
+  intros K M pts radii sel fr resid nres g Hfr Hsel Hres Hg Hs.
+  rewrite residue_row_is_sum by assumption. f_equal.
+  assert (La : length (atom_row K M pts radii sel fr) = length radii) by now apply atom_row_length.
+  assert (Lb : length (atom_row K M pts radii None fr) = length radii) by now apply atom_row_length.
+  apply (nth_ext _ _ 0 0).
+  - rewrite !zero_unselected_length; rewrite ?mask_of_length; congruence.
+  - intros j Hj. rewrite zero_unselected_length in Hj by (rewrite mask_of_length; congruence).
+    rewrite !zero_unselected_nth; rewrite ?mask_of_length; try congruence.
+    rewrite mask_of_nth by congruence.
+    destruct (selected sel j) eqn:Ej; [|reflexivity].
+    apply subset_independent_atom; try assumption. congruence.
+Qed.
